@@ -136,6 +136,9 @@ func genMsg(rng *hx.Rng, meta *hx.Meta, kinds []string) mspec {
 		m := mspec{Kind: k, Reuse: rng.Bool()}
 		parts := 1 + rng.Intn(4)
 		for i := 0; i < parts; i++ {
+			if rng.Chance(20) {
+				m.Ps = append(m.Ps, []wire.Piece{{}}) // an empty segment in front of / between the others
+			}
 			m.Ps = append(m.Ps, []wire.Piece{wire.Payload(rng, n/parts+rng.Intn(3))})
 		}
 		if rng.Chance(20) {
